@@ -1,5 +1,5 @@
 (* Properties/C16.v — Events are emitted exactly once per occurrence and tell a consistent story. *)
-From FS Require Import Model.Exec Proofs.ExecProofs Proofs.ExecStats Proofs.BreakerProofs Proofs.ExecRetryEvents Proofs.ExecCheckerProofs Proofs.ExecEventsProofs Corr.C16.
+From FS Require Import Model.Exec Proofs.ExecProofs Proofs.ExecStats Proofs.BreakerProofs Proofs.ExecRetryEvents Proofs.ExecCheckerProofs Proofs.ExecEventsProofs Spec.Verdict Proofs.ExecVerdictEvents Corr.C16.
 
 (* executor: one success-or-failure event matching SuccessAll, then one done event, both carrying the returned result *)
 Theorem C16_completion_events : forall fuel stack w,
@@ -99,7 +99,8 @@ Print Assumptions C16_full_event_only_on_refusal.
 (* a retry policy's verdict on a failed attempt (any world, any ledger): OnFailure always; OnAbort exactly when the outcome
    matches an abort condition; OnRetriesExceeded exactly when the budget (max retries or max duration) is exhausted and
    the outcome is not an abort; either of them ends the policy's run (Done), and exhaustion is remembered in the ledger,
-   after which the retry loop returns without consulting the policy again -- so neither fires twice in one run *)
+   after which the retry loop returns without consulting the policy again -- so neither fires twice in one run (stated over
+   whole logs by C16_verdict_events_consistent below) *)
 Theorem C16_abort_and_exceeded_events_in_their_situation : forall cfg pos c r w,
   let failed := rs_failed (get_rstate w pos) + 1 in
   let exceeded := (negb (r_max_retries cfg =? -1) && (r_max_retries cfg <? failed))
@@ -120,6 +121,24 @@ Theorem C16_timeout_event_iff_fired : forall w s, (s < length (w_scopes w))%nat 
   /\ sc_fired (get_scope (fire_timeout w s) s) = true.
 Proof. exact timeout_event_iff_fired_step. Qed.
 Print Assumptions C16_timeout_event_iff_fired.
+
+(* ... and over whole logs: in the complete log of any execution through any stack, at every stack position, the events
+   satisfy the automaton of Spec/Verdict.v -- OnAbort and OnRetriesExceeded are each logged directly after an OnFailure
+   of the same position, at most one of them, and nothing of that position but a new OnFailure / OnSuccess follows them
+   (so neither fires twice in a run of the policy and no retry is scheduled after them); OnRetryScheduled directly follows
+   an OnFailure; OnRetry follows its OnRetryScheduled *)
+Theorem C16_verdict_events_consistent : forall fuel stack now ext key b l k c script pos,
+  vst pos (drain (snd (execute fuel stack (fresh_world now ext key b l k c script)))) <> None.
+Proof. exact verdict_events_consistent. Qed.
+Print Assumptions C16_verdict_events_consistent.
+
+(* used by the correspondence: the executable form (run over the log in the order it was written, with the entries of
+   unregistered listeners left out) accepts every model log *)
+Theorem C16_verdict_checker_accepts_model : forall fuel stack now ext key b l k c script lsn mask pos,
+  vrun pos (map kp (filter (blsn_keeps mask) (filter (lsn_keeps lsn)
+     (rev (w_trace (drain (snd (execute fuel stack (fresh_world now ext key b l k c script))))))))) <> None.
+Proof. exact verdict_checker_accepts_model. Qed.
+Print Assumptions C16_verdict_checker_accepts_model.
 
 (* breaker state-change events form a connected path from the initial state, specific listener then generic *)
 Theorem C16_breaker_events_form_path : forall S (I : stats_impl S) c h s,
